@@ -26,6 +26,21 @@ impl log::Log for NullLogger {
     fn flush(&self) {}
 }
 
+fn level_for(line: &str) -> log::LevelFilter {
+    let mut h: u64 = 0xcbf29ce484222325;
+    for b in line.as_bytes().iter().take(4096) {
+        h = (h ^ *b as u64).wrapping_mul(0x100000001b3);
+    }
+    match (h >> 17) % 6 {
+        0 => log::LevelFilter::Off,
+        1 => log::LevelFilter::Error,
+        2 => log::LevelFilter::Warn,
+        3 => log::LevelFilter::Info,
+        4 => log::LevelFilter::Debug,
+        _ => log::LevelFilter::Trace,
+    }
+}
+
 fn usage() -> ! {
     eprintln!("usage: dltv gen <prop> <quick|thorough> <seed> <out.cases>\n       dltv run <prop> <in.cases> <out.impl>");
     std::process::exit(2)
@@ -55,13 +70,12 @@ fn main() {
             // panics are outcomes here, not diagnostics
             std::panic::set_hook(Box::new(|_| {}));
             let prop = args[2].clone();
-            if prop == "C03" {
-                // the crate's trace!/dbg_parsed sites evaluate their arguments (slices of the parsed
-                // bytes, Debug of the values) only when a logger is enabled at trace level
-                static NULL: NullLogger = NullLogger;
-                let _ = log::set_logger(&NULL);
-                log::set_max_level(log::LevelFilter::Trace);
-            }
+            // The crate's trace!/debug!/warn! sites evaluate their arguments only when the `log` crate's global level
+            // admits them.  A null logger is installed and the level is chosen PER CASE from a hash of the case line
+            // (so that a replay of the same case uses the same level): Off, Error, Warn, Info, Debug, Trace in turn.
+            // No property may depend on it; the model does not.
+            static NULL: NullLogger = NullLogger;
+            let _ = log::set_logger(&NULL);
             let inp = std::io::BufReader::new(std::fs::File::open(&args[3]).expect("open"));
             let mut f = BufWriter::new(std::fs::File::create(&args[4]).expect("create"));
             for line in inp.lines() {
@@ -74,6 +88,7 @@ fn main() {
                     None => (line.as_str(), ""),
                 };
                 let op: u32 = op.parse().expect("op");
+                log::set_max_level(level_for(&line));
                 let out = match std::panic::catch_unwind(|| {
                     let toks = wire::parse_toks(rest);
                     ops::run_case(&prop, op, &toks)
